@@ -45,6 +45,7 @@ var apiFiles = []treeFile{
 	{Name: "bad-in-elseif", Src: "PARTIAL-OUTPUT-MARKER @if(items[0] > 5)no@elseif(items[0] / 0 > 1)never@else other@end after"},
 	{Name: "bad-in-each-else", Src: "PARTIAL-OUTPUT-MARKER @each(x in [])never@else in else {{ items[0] / 0 }}@end after"},
 	{Name: "bad-in-for-else", Src: "PARTIAL-OUTPUT-MARKER @for(i = 0; i < 0; i++)never@else in else {{ items[0] / 0 }}@end after"},
+	{Name: "bad-lt", Src: "PARTIAL-OUTPUT-MARKER {{ 1 < \"a&b\" }} after"}, // a message with < and quotes in it
 	{Name: "bad-in-array", Src: "PARTIAL-OUTPUT-MARKER {{ [who, who, items[0] / 0] }} after"},
 	{Name: "bad-in-args", Src: "PARTIAL-OUTPUT-MARKER {{ [who].append(who, items[0] / 0).join(\"-\") }} after"},
 	// (one key only: the printed form of a loaded program, which the state snapshots compare, lists the keys of an
@@ -551,12 +552,14 @@ func judgeBody(c apiCase, e *apiEnv, g int, page string, body string, ok bool) (
 	if _, ferr := e.tpl.String(page, apiDataN(0)); ferr != nil {
 		msgText = ferr.Message()
 	}
-	leaksMsg := msgText != "" && (strings.Contains(body, msgText) || strings.Contains(html.UnescapeString(body), msgText))
+	// shown (debug on): the message as it is, byte for byte; leaked (debug off): also in an HTML-escaped form
+	showsMsg := msgText != "" && strings.Contains(body, msgText)
+	leaksMsg := msgText != "" && (showsMsg || strings.Contains(html.UnescapeString(body), msgText))
 	if !c.Cfg.Debug && (leaksPath || leaksMsg) {
 		return "leak", fmt.Sprintf("debug mode is off but the body shows path=%v message=%v", leaksPath, leaksMsg)
 	}
-	if c.Cfg.Debug && class == "builtin" && len(want.Shows) > 0 && !(leaksPath && leaksMsg) {
-		return "debug-page-incomplete", fmt.Sprintf("debug mode is on but the body shows path=%v message=%v", leaksPath, leaksMsg)
+	if c.Cfg.Debug && class == "builtin" && len(want.Shows) > 0 && !(leaksPath && showsMsg) {
+		return "debug-page-incomplete", fmt.Sprintf("debug mode is on but the body shows path=%v message=%v (%q)", leaksPath, showsMsg, msgText)
 	}
 	return "", ""
 }
